@@ -528,3 +528,6 @@ TX7 = "rich/text.py"
 V("c05-append-text-spans-dropped", "C05", TX7, "        self._text.append(text.plain)\n        self._spans.extend(text_spans)\n        self._length += len(text)\n        return self\n\n    def append_tokens", "        self._text.append(text.plain)\n        self._length += len(text)\n        return self\n\n    def append_tokens", "R5.15")
 V("c05-append-tokens-span-dropped", "C05", TX7, "            if style is not None:\n                append_span(_Span(offset, offset + len(content), style))\n", "", "R5.15")
 V("c05-append-tokens-span-first-only", "C05", TX7, "            if style is not None:\n                append_span(_Span(offset, offset + len(content), style))\n", "            if style is not None and not self._spans:\n                append_span(_Span(offset, offset + len(content), style))\n", "R5.15")
+V("c10-restore-stdout-negated", "C10", "rich/live.py", "        if self._restore_stdout:\n            sys.stdout = self._restore_stdout\n", "        if not self._restore_stdout:\n            sys.stdout = self._restore_stdout\n", "R10.1")
+V("c10-restore-stderr-foreign-guard", "C10", PG, "        if self._restore_stderr:\n            sys.stderr = self._restore_stderr\n", "        if self._restore_stdout:\n            sys.stderr = self._restore_stderr\n", "R10.1")
+V("c10-pop-hook-noop", "C10", "rich/console.py", "        self._render_hooks.pop()\n", "        self._render_hooks[-1:]\n", "R10.17")
